@@ -617,7 +617,7 @@ partial def parseTy (j : Json) : Except String Codec.Ty := do
   | "leaf" =>
     match (← getStr j "leaf") with
     | "str" => return .leaf .str | "int" => return .leaf .int | "float" => return .leaf .float
-    | "bool" => return .leaf .bool | "any" => return .leaf .any | "custom" => return .leaf .custom
+    | "bool" => return .leaf .bool | "any" => return .leaf .any | "custom" => return .leaf .custom | "map" => return .leaf .map
     | l => throw s!"leaf {l}"
   | "ptr" => return .ptr (← parseTy (← j.getObjVal? "t"))
   | "slice" => return .slice (← parseTy (← j.getObjVal? "t"))
